@@ -5,7 +5,7 @@ CONSTANTS
   Subs <- SubsFull
   Trunk = 5
   Maturity = 3
-  MaxPool = 2
+  MaxPool = 3
   MaxStem = 2
   FeeBase = 1000
   MaxTxWeight = 226
@@ -13,10 +13,10 @@ CONSTANTS
   MineWeight = 120
   FeeFirst = TRUE
   EvictMode = "nodeps"
-  ShortReorg = FALSE
+  ShortReorg = TRUE
   MaxBlocks = 6
   MaxSteps = 14
   MaxBlockTxs = 3
   MaxReorgDepth = 2
-  SimProfile = "submit"
+  SimProfile = "blocks"
 INVARIANTS Emit PoolJointlyValid StemJointlyValid PoolMatureUnlocked NoUnderpaid NoOverweight AdmitMatureUnlocked MineableAccepted
